@@ -103,7 +103,7 @@ def check_case(case: Dict[str, Any]) -> Tuple[List[Tuple[str, str]], Dict[str, A
                 args.append('--buildtime=2020-02-02 02:02:02')
                 env['SOURCE_DATE_EPOCH'] = None   # removed from the child's environment
             else:
-                env['SOURCE_DATE_EPOCH'] = '1580608922'
+                env['SOURCE_DATE_EPOCH'] = case.get('epoch') or '1580608922'
             # the build time is an instant (SOURCE_DATE_EPOCH) or is given as text (--buildtime): the local time zone of the machine
             # that builds is not an input
             if sched.get('tz'):
@@ -168,7 +168,9 @@ def st_case():
                  {'hashseed': draw(st.integers(0, 4000)), 'shuffle': draw(st.integers(1, 10 ** 6))},
                  {'hashseed': draw(st.integers(0, 4000)), 'reuse': True, 'tz': draw(st.sampled_from(['JST-9', 'PST8', 'UTC', 'NPT-5:45']))},
                  {'hashseed': h0, 'shuffle': draw(st.integers(1, 10 ** 6))}]
-        return {'files': p['files'], 'roots': p['roots'], 'args': args, 'schedule': sched, 'buildtime': draw(st.integers(0, 3)) == 0}
+        return {'files': p['files'], 'roots': p['roots'], 'args': args, 'schedule': sched, 'buildtime': draw(st.integers(0, 3)) == 0,
+                # the instant is any valid value of the variable, the epoch itself included
+                'epoch': draw(st.sampled_from(['1580608922', '1580608922', '0', '00', '1', '2147483648']))}
     return c()
 
 
